@@ -70,16 +70,25 @@ class Extractor:
                     out.append(("call", nm, [U(x) for x in s.value.args], ("=", U(s.targets[0])), s))
                 else:
                     terms = self._terms(s.value)
-                    out.append(("acc", U(s.targets[0]), "=", U(terms[0]), self.fold(terms[0])))
-                    for t in terms[1:]:
-                        out.append(("acc", U(s.targets[0]), "+=", U(t), self.fold(t)))
+                    for i_, t in enumerate(terms):
+                        op_ = "=" if i_ == 0 else "+="
+                        if self.sibling(t):
+                            if i_ == 0:
+                                out.append(("call", self.sibling(t), [U(x) for x in t.args], ("=", U(s.targets[0])), s))
+                            else:
+                                out.append(("call", self.sibling(t), [U(x) for x in t.args], ("+=", U(s.targets[0])), s))
+                        else:
+                            out.append(("acc", U(s.targets[0]), op_, U(t), self.fold(t)))
             elif isinstance(s, ast.AugAssign) and U(s.target) in self.acc_vars and isinstance(s.op, ast.Add):
                 nm = self.sibling(s.value)
                 if nm:
                     out.append(("call", nm, [U(x) for x in s.value.args], ("+=", U(s.target)), s))
                 else:
                     for t in self._terms(s.value):
-                        out.append(("acc", U(s.target), "+=", U(t), self.fold(t)))
+                        if self.sibling(t):
+                            out.append(("call", self.sibling(t), [U(x) for x in t.args], ("+=", U(s.target)), s))
+                        else:
+                            out.append(("acc", U(s.target), "+=", U(t), self.fold(t)))
             elif isinstance(s, ast.Expr) and self.sibling(s.value):
                 out.append(("call", self.sibling(s.value), [U(x) for x in s.value.args], None, s))
             elif isinstance(s, ast.For):
